@@ -44,6 +44,7 @@ FLAG_OF = {
     "merge_strategy": lambda v: ["--merge-strategy", v], "input_strategy": lambda v: ["--input-strategy", v],
     "output_strategy": lambda v: ["--output-strategy", v], "ignore_transients": lambda v: ["--no-ignore-transients"] if not v else None,
     "show_base": lambda v: ["--no-base"] if not v else None,
+    "use_filter": lambda v: ["--use-filter"] if v else None,
 }
 NS_NAME = {"show_base": "show_base"}
 
@@ -88,6 +89,8 @@ def gen_flags(r, entry, focus):
         if opt in FLAG_OF and r.random() < 0.35:
             if opt in ("port", "ip", "base_url", "browser", "persist", "workdirectory", "show_base") and opt not in M.SECTION_OPTS[M.SECTIONS[entry][0]]:
                 continue
+            if opt == "use_filter" and entry not in ("git-nbdiffdriver", "git-nbdifftool"):
+                continue        # only the git diff driver / tool have the flag
             v = r.choice(M.DOMAINS[opt])
             a = FLAG_OF[opt](v)
             if a is None:
@@ -203,6 +206,14 @@ def run_shard(spec):
             files, focus = gen_layout(r, entry)
             flags, argv = gen_flags(r, entry, focus) if entry in PARSER_ENTRIES else ({}, [])
             cases.append((entry, files, focus, flags, argv))
+    if spec.get("shard", 0) == 0:
+        # inventory: every trait the entry points' config classes declare (config-tagged or not) must be an option of
+        # the model, otherwise that option is silently never judged
+        for ep, cls in cfg.entrypoint_configurables.items():
+            missing = set(cls.class_trait_names()) - {"config", "parent", "log"} - set(M.options_of(ep))
+            for name in sorted(missing):
+                col.inconc("option %r of entry point %r is declared in nbdime/config.py but not in the model (vmon/ref_config.py)" % (name, ep))
+            col.count("options_inventoried", len(set(cls.class_trait_names()) - {"config", "parent", "log"}))
     home = os.getcwd()
     ncase = 0
     for entry, files, focus, flags, argv in cases:
@@ -249,6 +260,8 @@ def run_shard(spec):
                     continue
                 if opt == "id" and opt not in got:
                     continue
+                if opt == "use_filter" and opt not in got:
+                    g = False       # not listed among the defaults; the parsers' own default is False
                 if canon(g) != canon(w):
                     col.violation(classify(entry, opt, files, w, g), "build_config(%s)[%s] = %r, documented rule gives %r (deciding section %s)" % (
                         entry, opt, g, w, M.deciding_section(entry, files, opt)), wit, "build_config")
